@@ -338,7 +338,7 @@ def run(ctx):
                        "not cached; a case is non-trivial if the property's handler fired at least once; distinct = distinct "
                        "(property, cached, pool, history)")
     rnd = random.Random(ctx.seed)
-    n, maxlen = (2400, 14) if ctx.tier == "quick" else (30000, 30)
+    n, maxlen = (2400, 14) if ctx.tier == "quick" else (26000, 30)
     if ctx.replay:
         cases = [json.load(open(ctx.replay))["replay"]["case"]]
     else:
